@@ -21,7 +21,8 @@ from pdfminer.pdftypes import PDFStream  # noqa: E402
 from pdfminer.psparser import PSEOF, PSKeyword, PSLiteral  # noqa: E402
 
 PREDICTOR_FILTERS = {"FlatePNG": ("Fl", "png"), "FlateTIFF": ("Fl", "tiff"), "LZWPNG": ("LZW", "png"), "LZWTIFF": ("LZW", "tiff")}
-FILTER_NAME = {"FlatePNG": "FlateDecode", "FlateTIFF": "FlateDecode", "LZWPNG": "LZWDecode", "LZWTIFF": "LZWDecode", "Flate": "FlateDecode", "LZW": "LZWDecode", "A85": "ASCII85Decode", "AHx": "ASCIIHexDecode",
+LZW_EARLY = {"LZWE0": 0, "LZWE1": 1}
+FILTER_NAME = {"LZWE0": "LZWDecode", "LZWE1": "LZWDecode", "FlatePNG": "FlateDecode", "FlateTIFF": "FlateDecode", "LZWPNG": "LZWDecode", "LZWTIFF": "LZWDecode", "Flate": "FlateDecode", "LZW": "LZWDecode", "A85": "ASCII85Decode", "AHx": "ASCIIHexDecode",
                "RL": "RunLengthDecode", "DCT": "DCTDecode", "JPX": "JPXDecode", "JBIG2": "JBIG2Decode", "CCITT": "CCITTFaxDecode"}
 ENC = {"Flate": "Fl", "LZW": "LZW", "A85": "A85", "AHx": "AHx", "RL": "RL"}
 PIX = {"bw": (1, "DeviceGray", 1), "gray": (8, "DeviceGray", 1), "rgb": (8, "DeviceRGB", 3), "cmyk": (8, "DeviceCMYK", 4)}
@@ -88,6 +89,10 @@ def encode_chain(chain, data, variant=0, geom=None, row_types=None):
                 out = K.tiff_predict(out, colors, columns) if columns else out
                 parms[q] = {"Predictor": 2, "Colors": colors, "BitsPerComponent": 8, "Columns": max(columns, 1)}
             out = K.encode_layer(codec, out, variant)
+        elif f in LZW_EARLY:
+            # the reference encoder's code stream packed with the width schedule of the declared /EarlyChange
+            out = K.lzw_pack(K.lzw_codes(out), ec=LZW_EARLY[f])
+            parms[q] = {"EarlyChange": LZW_EARLY[f]}
         elif f in ENC:
             out = K.encode_layer(ENC[f], out, variant)
     return out, parms
@@ -107,6 +112,8 @@ def image_xobject(pk, w, h, chain, variant=0, row_types=None, samples=None):
     enc, parms = encode_chain(chain, data, variant, geom=(ncomp, w, bits), row_types=row_types)
     if any(parms):
         attrs["DecodeParms"] = parms[0] if len(chain) == 1 else parms
+    if chain and chain[-1] in LZW_EARLY and len(K.lzw_codes(data)) < 300:
+        raise MachineryError("realiser self-check: a %dx%d %s image gives too few LZW codes for the width switch" % (w, h, pk))
     if len(data) > 4000 and w % 2 == 0 and chain == ["LZW"]:
         # realiser self-check: the stream must hold a clear-table code in mid-stream (the table filled up)
         if K.lzw_codes(data).count(256) < 2:
@@ -114,7 +121,22 @@ def image_xobject(pk, w, h, chain, variant=0, row_types=None, samples=None):
     return Stream(attrs, enc)
 
 
-def export_doc(imgs, variant=0, pages=1):
+def build_doc(objs, encrypt=None):
+    """objs -> PDF bytes; encrypt: None | "RC4" (V 2, R 3, 128 bit) | "AESV2" (V 4, R 4) - the standard security handler of
+    harness/realise/encryptor.py (C10) with an empty user password; strings and streams are encrypted by the writer"""
+    if not encrypt:
+        return build([Revision(dict(sorted(objs.items())), root=Ref(1))])[0]
+    from . import encryptor as E
+    from .pdfwriter import HexStr
+    E.self_check()
+    id0 = bytes(range(16))
+    sec = E.StdSec(2, 3, 128, None, True, -4, id0, "", None) if encrypt == "RC4" else E.StdSec(4, 4, 128, "AESV2", True, -4, id0, "", None)
+    te = {"Encrypt": sec.encrypt_dict(), "ID": [HexStr(id0), HexStr(id0)]}
+    rev = Revision(dict(sorted(objs.items())), root=Ref(1), trailer_extra=te)
+    return build([rev], transform_for=sec.transform_for())[0]
+
+
+def export_doc(imgs, variant=0, pages=1, encrypt=None):
     """imgs: [{"name", "filters", "pk", "w", "h"}] -> PDF whose page(s) paint the images in order, one XObject each.
     Equal names are distinct XObjects on successive pages (a name can be bound once per page)."""
     objs = {1: {"Type": Name("Catalog"), "Pages": Ref(2)}}
@@ -142,7 +164,7 @@ def export_doc(imgs, variant=0, pages=1):
         page_body += b"q 10 0 0 10 20 20 cm " + ser_name(im["name"]) + b" Do Q\n"
     flush()
     objs[2] = {"Type": Name("Pages"), "Kids": kids, "Count": len(kids)}
-    return build([Revision(dict(sorted(objs.items())), root=Ref(1))])[0]
+    return build_doc(objs, encrypt)
 
 
 def run_export(pdf, outdir, output_type="text"):
@@ -490,7 +512,7 @@ def jb2_self_check():
         raise MachineryError("JBIG2 reference parser fails on the hand-assembled header")
 
 
-def jbig2_doc(image_bytes, globals_bytes=None, name="Im1"):
+def jbig2_doc(image_bytes, globals_bytes=None, name="Im1", encrypt=None):
     objs = {1: {"Type": Name("Catalog"), "Pages": Ref(2)}, 2: {"Type": Name("Pages"), "Kids": [Ref(3)], "Count": 1}}
     at = {"Type": Name("XObject"), "Subtype": Name("Image"), "Width": 8, "Height": 1, "BitsPerComponent": 1, "ColorSpace": Name("DeviceGray"),
           "Filter": Name("JBIG2Decode")}
@@ -500,7 +522,7 @@ def jbig2_doc(image_bytes, globals_bytes=None, name="Im1"):
     objs[5] = Stream(at, image_bytes)
     objs[4] = Stream({}, b"q 10 0 0 10 20 20 cm " + ser_name(name) + b" Do Q")
     objs[3] = {"Type": Name("Page"), "Parent": Ref(2), "MediaBox": [0, 0, 200, 200], "Contents": Ref(4), "Resources": {"XObject": {name: Ref(5)}}}
-    return build([Revision(dict(sorted(objs.items())), root=Ref(1))])[0]
+    return build_doc(objs, encrypt)
 
 
 def jbig2_direct(x, mode):
